@@ -433,6 +433,25 @@ class Explorer:
             init = m.funcs.get(f"{cname}.__init__")
             if init is not None:
                 self.call_function(run, init, [ref] + args, kwargs, node)
+                return ref
+            cnode = m.classes.get(cname)
+            if cnode is not None and any(ast.unparse(d).split("(")[0] in ("dataclass", "dataclasses.dataclass") for d in cnode.decorator_list):
+                # @dataclass without an explicit __init__: fields in annotation order, defaults from the class body
+                fields = [(st.target.id, st.value) for st in cnode.body if isinstance(st, ast.AnnAssign) and isinstance(st.target, ast.Name)]
+                given = dict(zip([f for f, _d in fields], args))
+                for k, v in kwargs.items():
+                    if k in given or k not in dict(fields):
+                        raise EngineError(f"{cname}(...): bad argument {k}")
+                    given[k] = v
+                decl = self.reg.classes[cname]
+                for f, dflt in fields:
+                    if f not in given:
+                        if dflt is None:
+                            raise EngineError(f"{cname}(...): missing field {f}")
+                        given[f] = run.ev(dflt, Frame(FuncInfo(m, "<class>", ast.FunctionDef(name="<class>", args=None, body=[], decorator_list=[], lineno=0), None)))
+                    if f in decl:
+                        run.store_field(ref.t, cname, f, run.coerce(given[f], decl[f]))
+                return ref
             return ref
         raise EngineError(f"instantiation of {modname}.{cname}: class not declared in the sidecar")
 
